@@ -10,7 +10,7 @@ CONSTANTS
   DtSet = {1}
   AskSet = {1}
   MinSet = {1}
-  ShapeSet = {"exact", "missing", "extra", "wrongId"}
+  ShapeSet = {"exact", "missing", "extra", "wrongId", "perm", "dup", "dupAdj"}
   Chan = {"c0", "c1"}
   Payer = {"p1", "p2", "p3"}
   Acct = {"own", "a1", "a2"}
